@@ -258,6 +258,7 @@ func (n *cdNode) render() interface{} {
 
 type cdEnv struct {
 	realReg, recReg *plugin.Registry
+	advNames        []string
 	dir             string // scratch working directory (answ logs of real guns, property file, yaml files)
 	props           string
 }
@@ -289,16 +290,56 @@ func cdSetup() *cdEnv {
 	return e
 }
 
+// placeholder prepares the environment and the property file of an ordinary placeholder case.  The neighbourhood is
+// hostile on purpose: names that are a prefix / an extension of the requested one are always present, before and after it.
 func (e *cdEnv) placeholder(name, val string, set bool) {
 	os.Unsetenv(name)
-	content := "OTHER_KEY=x\n"
+	os.Setenv(name+"_EXT", "wrong-ext")
+	os.Setenv(name[:len(name)-1], "wrong-short")
+	content := name + "_EXT=wrong-ext\n" + name[:len(name)-1] + "=wrong-short\n# " + name + "=commented\n"
 	if set {
 		os.Setenv(name, val)
 		content += name + "=" + val + "\n"
 	}
+	content += name + "2=wrong-2\n"
 	if err := os.WriteFile(e.props, []byte(content), 0644); err != nil {
 		panic(err)
 	}
+}
+
+// adversarial renders the environment of a phadv case as TLC describes it (property file lines, end of line, variables)
+// and returns the placeholder text for the requested key / name.
+func (e *cdEnv) adversarial(adv map[string]interface{}) string {
+	for _, n := range append(e.advNames, "VERIF_PH", "VERIF_P", "VERIF_PH_EXT") {
+		os.Unsetenv(n)
+	}
+	e.advNames = nil
+	req := vt.Str(adv["req"])
+	if vt.Str(adv["src"]) == "env" {
+		for _, x := range vt.List(adv["envs"]) {
+			m := vt.Map(x)
+			os.Setenv(vt.Str(m["n"]), vt.Str(m["v"]))
+			e.advNames = append(e.advNames, vt.Str(m["n"]))
+		}
+		return "${env:" + req + "}"
+	}
+	eol := "\n"
+	if vt.Str(adv["eol"]) == "crlf" {
+		eol = "\r\n"
+	}
+	content := ""
+	for _, x := range vt.List(adv["lines"]) {
+		m := vt.Map(x)
+		if vt.Str(m["t"]) == "kv" {
+			content += vt.Str(m["k"]) + "=" + vt.Str(m["v"]) + eol
+		} else {
+			content += vt.Str(m["k"]) + eol
+		}
+	}
+	if err := os.WriteFile(e.props, []byte(content), 0644); err != nil {
+		panic(err)
+	}
+	return "${property:" + e.props + "#" + req + "}"
 }
 
 // decodeVia runs one path through the real code and reads the decoded value back.
@@ -438,6 +479,12 @@ func confdecodeMain(args []string) {
 		set := entries(delta["set"])
 		kind := vt.Str(c["kind"])
 		e.placeholder("VERIF_PH", vt.Str(line["phval"]), vt.Bool(c["set"]) && (kind == "ph" || kind == "emb" || kind == "emblist"))
+		if kind == "phadv" {
+			ph := e.adversarial(vt.Map(line["adv"]))
+			for i := range set {
+				set[i].V = strings.ReplaceAll(set[i].V, "@ADVPH@", ph)
+			}
+		}
 		emit := func(via, shape, reg string) {
 			tree := build(base, set, del, e.props)
 			o, got, errText, _ := e.decodeVia(via, shape, reg, tree, v.leaves)
